@@ -145,6 +145,10 @@ pub enum Driver {
     /// `next()` until the first error, `try_recover()`, then `set_max_allowable_tag_size(Some(limit))`, then
     /// `next()` until `None` or an error: a limit that is set late applies to the very next tag
     RecoverThenLimit(usize),
+    /// `next()` until `items` non-End items have been returned, then `set_max_allowable_tag_size(Some(limit))`, then
+    /// `next()` until `None` or an error. (A batch of queued items always ends with the tag that was read, so right
+    /// after a non-End item the queue is empty and everything that follows is read under the new limit.)
+    LimitAfter { items: usize, limit: usize },
 }
 
 impl Driver {
@@ -155,6 +159,7 @@ impl Driver {
             Driver::Streaming { extra } => json!({"streaming": extra}),
             Driver::StreamingThenClose => json!({"streaming_then_close": true}),
             Driver::RecoverThenLimit(m) => json!({"recover_then_limit": m}),
+            Driver::LimitAfter { items, limit } => json!({"limit_after": items, "limit": limit}),
             Driver::Script(ops) => json!({"script": ops.iter().map(|o| o.to_s()).collect::<Vec<_>>().join("")}),
         }
     }
@@ -163,6 +168,8 @@ impl Driver {
             Ok(Driver::UntilEnd { extra: e.as_u64().ok_or("until_end")? as usize })
         } else if let Some(e) = j.get("recovering") {
             Ok(Driver::Recovering { max_errors: e.as_u64().ok_or("recovering")? as usize, extra: j.get("extra").and_then(|v| v.as_u64()).unwrap_or(0) as usize })
+        } else if let Some(k) = j.get("limit_after") {
+            Ok(Driver::LimitAfter { items: k.as_u64().ok_or("limit_after")? as usize, limit: j.get("limit").and_then(|v| v.as_u64()).ok_or("limit")? as usize })
         } else if let Some(m) = j.get("recover_then_limit") {
             Ok(Driver::RecoverThenLimit(m.as_u64().ok_or("recover_then_limit")? as usize))
         } else if j.get("streaming_then_close").is_some() {
@@ -468,6 +475,33 @@ pub fn run_reader_t<T: Spec>(s: &ReaderSetup) -> RTrace {
                         break;
                     }
                     extra_left -= 1;
+                }
+            }
+        }
+        Driver::LimitAfter { items, limit } => {
+            let mut seen = 0usize;
+            let mut done = false;
+            #[allow(clippy::never_loop)]
+            loop {
+                if !done && *items == 0 {
+                    done = true;
+                    it.set_max_allowable_tag_size(Some(*limit));
+                    push!(Ev::Cfg);
+                }
+                let ev = do_next(&mut it);
+                let non_end = matches!(&ev, Ev::Tag(t, _) if !t.is_end());
+                let stop = !matches!(ev, Ev::Tag(..));
+                push!(ev);
+                if stop {
+                    break;
+                }
+                if non_end {
+                    seen += 1;
+                    if !done && seen == *items {
+                        done = true;
+                        it.set_max_allowable_tag_size(Some(*limit));
+                        push!(Ev::Cfg);
+                    }
                 }
             }
         }
